@@ -1,15 +1,25 @@
 /-
-  C26 — Assembler and linker error spans are well-formed.   (partial)
+  C26 — Assembler and linker error spans are well-formed.   (assembler side proved at source level; modulo finding F21)
   Proved for every input: every error `assemble` / `assemble_debug` / `link` can return carries at least one span, so
   `ErrSpan::first` and `iter` have something to return (fix F16 made this true for `link`); label errors carry the span
   of the label token they complain about (`Label::span`), duplicate-label errors additionally the recorded position of
   the first definition.
-  Not proved: "every span lies within the source" needs the parser's span theorem (C04) composed with the statement
-  spans and, for the recorded position of a first definition, that upper-casing preserves the byte length of a label —
-  false for some non-ASCII labels (known finding F21); the correspondence check's oracle checks spans on generated
-  programs with ASCII labels and reports F21 on the non-ASCII stream.
+  **Source level** (`source_error_spans`, Lemmas/ErrSpans.lean + the parser-output facts of Lemmas/ParserOut.lean): for ANY
+  source text that parses, if assembling (with or without debug symbols) fails, then
+    * for a label error (undetermined label address, duplicate label, offset does not fit / is external, label not found)
+      every span starts at an occurrence of a label's spelling in the text and has the byte length of that spelling — or,
+      possible only for the recorded first definition of a duplicate-label error, the byte length of the upper-cased spelling;
+    * for every other error every span runs from the start of a token to the end of the same or a later token, hence lies
+      inside the text.
+  `source_error_spans_inside`: when upper-casing preserves the byte length of every label the program declares (true for
+  every ASCII label), every span of every error lies inside the text.  The remaining case IS finding F21 (e.g. a label
+  containing `ŉ`, whose upper-casing is one byte longer): the recorded first-definition span can extend past the label
+  and past the end of the text.  Linker errors carry the placeholder span 0..0 for block overlaps (no source position is
+  known) and recorded label positions otherwise; the correspondence check's oracle covers them.
 -/
 import Lc3V.Model.Asm
+import Lc3V.Lemmas.ErrSpans
+import Lc3V.Lemmas.ParserDischarge
 set_option linter.unusedSimpArgs false
 namespace Lc3V.C26
 open Lc3V
@@ -253,7 +263,141 @@ theorem operand_error_span (n : Nat) (l : Label) (pc : W) (t : SymTab) (e : AsmE
     · cases h; rfl
     · split at h <;> cases h <;> rfl
 
+/-! ### source level -/
+
+/-- the span lies inside the text -/
+def Inside (src : List Char) (sp : Span) : Prop := sp.1 ≤ sp.2 ∧ sp.2 ≤ blen src
+
+/-- the span starts at an occurrence of `name` in the text and has `len` bytes -/
+def StartsAt (src : List Char) (name : List Char) (len : Nat) (sp : Span) : Prop :=
+  ∃ pre post, src = pre ++ name ++ post ∧ sp = (blen pre, blen pre + len)
+
+/-- a label span: covers a spelling of a label exactly, or (recorded first definitions only) starts at the spelling of a label
+    the program declares and has the length of its upper-casing -/
+def LabelSpan (src : List Char) (stmts : List Stmt) (sp : Span) : Prop :=
+  (∃ name : List Char, StartsAt src name (blen name) sp) ∨
+  (∃ s ∈ stmts, ∃ l, DeclLabel s l ∧ StartsAt src l.name (blen (upperS l.name)) sp)
+
+theorem toks_ordered (toks : Array SpTok) (hpw : toks.toList.Pairwise (fun a b => a.stop ≤ b.start))
+    (i j : Nat) (ti tj : SpTok) (hij : i < j) (hi : toks[i]? = some ti) (hj : toks[j]? = some tj) : ti.stop ≤ tj.start := by
+  obtain ⟨hi1, hi2⟩ := Array.getElem?_eq_some_iff.mp hi
+  obtain ⟨hj1, hj2⟩ := Array.getElem?_eq_some_iff.mp hj
+  have := List.pairwise_iff_getElem.mp hpw i j (by simpa using hi1) (by simpa using hj1) hij
+  simp only [Array.getElem_toList] at this
+  rw [hi2, hj2] at this; exact this
+
+theorem labTok_spans (src : List Char) (toks : Array SpTok) (hf : ∀ t ∈ toks.toList, TokFact src t) (l : Label) (h : LabTok toks l) :
+    StartsAt src l.name (blen l.name) l.span ∧
+    StartsAt src l.name (blen (upperS l.name)) (l.start, l.start + blen (upperS l.name)) := by
+  obtain ⟨t, ht, hk, hs⟩ := h
+  obtain ⟨_, pre, post, hsrc, hpre, hstop⟩ := (hf t ht).lab l.name hk
+  have hst : blen pre = l.start := by rw [hpre, hs]
+  exact ⟨⟨pre, post, hsrc, by unfold Label.span; rw [hst]⟩, ⟨pre, post, hsrc, by rw [hst]⟩⟩
+
+/-- parser output satisfies the per-statement assumptions of `assemble_spans` -/
+theorem parsed_spanStmtOk (src : List Char) (stmts : List Stmt) (h : parseAst src = .ok stmts) :
+    ∀ s ∈ stmts, SpanStmtOk (Inside src) (LabelSpan src stmts) s := by
+  obtain ⟨toks, hf, hpw, hs, _⟩ := parseAst_spec src stmts h
+  intro s hsm
+  obtain ⟨hlab, hkind, i, j, t, te, hij, hti, hte, hsp⟩ := hs s hsm
+  have hmem : ∀ i t, toks[i]? = some t → t ∈ toks.toList := fun i t h => Array.mem_toList_iff.mpr (Array.mem_of_getElem? h)
+  refine ⟨?_, ?_, ?_, ?_⟩
+  · rw [hsp]
+    have f1 := hf t (hmem i t hti)
+    have f2 := hf te (hmem j te hte)
+    refine ⟨?_, f2.hi⟩
+    show t.start ≤ te.stop
+    rcases Nat.lt_or_ge i j with hlt | hge
+    · have := toks_ordered toks hpw i j t te hlt hti hte
+      have := f1.lo; have := f2.lo; omega
+    · have : i = j := by omega
+      subst this
+      rw [hti] at hte; cases hte; exact f1.lo
+  · intro l hl
+    exact Or.inl ⟨l.name, (labTok_spans src toks hf l (hlab l hl)).1⟩
+  · intro l hl
+    have hlt : LabTok toks l := by
+      cases hn : s.nucleus with
+      | instr ins => rw [hn] at hl hkind; exact hkind l hl
+      | directive d =>
+        rw [hn] at hl hkind
+        cases d with
+        | fill v =>
+          cases v with
+          | off w => simp [StmtKind.labelOps] at hl
+          | label l0 =>
+            have : l = l0 := by simpa [StmtKind.labelOps] using hl
+            subst this; exact hkind
+        | external l0 =>
+          have : l = l0 := by simpa [StmtKind.labelOps] using hl
+          subst this; exact hkind
+        | orig a => simp [StmtKind.labelOps] at hl
+        | end_ => simp [StmtKind.labelOps] at hl
+        | blkw n => simp [StmtKind.labelOps] at hl
+        | stringz x => simp [StmtKind.labelOps] at hl
+    exact Or.inl ⟨l.name, (labTok_spans src toks hf l hlt).1⟩
+  · intro l hd
+    have hlt : LabTok toks l := by
+      rcases hd with hd' | hd'
+      · exact hlab l hd'
+      · rw [hd'] at hkind; exact hkind
+    exact Or.inr ⟨s, hsm, l, hd, (labTok_spans src toks hf l hlt).2⟩
+
+/-- **error spans of assembling any source text**: label errors point at label spellings in the text (the recorded first
+    definition possibly with the length of the upper-cased name), all other errors at token-to-token ranges inside the text -/
+theorem source_error_spans (src : List Char) (stmts : List Stmt) (dbg : Bool) (e : AsmErr) (hp : parseAst src = .ok stmts)
+    (h : assemble stmts (if dbg then some src else none) = .error e) :
+    e.spans ≠ [] ∧
+    (isLabelErr e.kind = true → ∀ sp ∈ e.spans, LabelSpan src stmts sp) ∧
+    (isLabelErr e.kind = false → ∀ sp ∈ e.spans, Inside src sp) := by
+  have hspec := assemble_spans (Inside src) (LabelSpan src stmts) stmts _ (parsed_spanStmtOk src stmts hp) e h
+  refine ⟨assemble_error_has_span stmts _ e h, fun hk => ?_, fun hk => ?_⟩
+  · unfold ErrSpec at hspec; rw [hk] at hspec; exact hspec
+  · unfold ErrSpec at hspec; rw [hk] at hspec; exact hspec
+
+/-- a label span of the exact form lies inside the text -/
+theorem startsAt_inside (src name : List Char) (sp : Span) (h : StartsAt src name (blen name) sp) : Inside src sp := by
+  obtain ⟨pre, post, hsrc, rfl⟩ := h
+  refine ⟨by simp, ?_⟩
+  rw [hsrc, blen_append, blen_append]
+  show blen pre + blen name ≤ _
+  omega
+
+/-- **all spans inside the text** when upper-casing keeps the byte length of the names of the labels the program declares
+    (true of every ASCII label; the other case is finding F21) -/
+theorem source_error_spans_inside (src : List Char) (stmts : List Stmt) (dbg : Bool) (e : AsmErr) (hp : parseAst src = .ok stmts)
+    (h : assemble stmts (if dbg then some src else none) = .error e)
+    (hup : ∀ s ∈ stmts, ∀ l, DeclLabel s l → blen (upperS l.name) = blen l.name) :
+    ∀ sp ∈ e.spans, Inside src sp := by
+  obtain ⟨_, h1, h2⟩ := source_error_spans src stmts dbg e hp h
+  intro sp hsp
+  cases hk : isLabelErr e.kind with
+  | false => exact h2 hk sp hsp
+  | true =>
+    rcases h1 hk sp hsp with ⟨name, hn⟩ | ⟨s, hs, l, hd, hn⟩
+    · exact startsAt_inside src name sp hn
+    · rw [hup s hs l hd] at hn
+      exact startsAt_inside src l.name sp hn
+
+theorem ascii_upperC_table : ∀ n : Fin 128, blen (upperC (Char.ofNat n.val)) = (Char.ofNat n.val).utf8Size := by decide +kernel
+
+/-- ASCII names keep their byte length under upper-casing -/
+theorem ascii_upper_blen : ∀ name : List Char, (∀ c ∈ name, c.toNat < 128) → blen (upperS name) = blen name
+  | [], _ => rfl
+  | c :: cs, h => by
+    have ih := ascii_upper_blen cs (fun x hx => h x (by simp [hx]))
+    have hc := h c (by simp)
+    have h1 : blen (upperC c) = c.utf8Size := by
+      have := ascii_upperC_table ⟨c.toNat, hc⟩
+      simpa [Char.ofNat_toNat] using this
+    unfold upperS at ih ⊢
+    simp only [List.flatMap_cons, blen_append, blen, ih, h1]
+
+/-- finding F21's mechanism: a name whose upper-casing is longer in bytes -/
+example : blen (upperS [Char.ofNat 0x149]) = 3 ∧ blen [Char.ofNat 0x149] = 2 := by decide +kernel
+
 def obligations : List Lean.Name :=
-  [``pass1_errOk, ``pass2Step_errOk, ``assemble_error_has_span, ``link_error_has_span, ``operand_error_span]
+  [``source_error_spans, ``source_error_spans_inside, ``ascii_upper_blen, ``parsed_spanStmtOk, ``Lc3V.assemble_spans, ``Lc3V.parseAst_spec,
+   ``pass1_errOk, ``pass2Step_errOk, ``assemble_error_has_span, ``link_error_has_span, ``operand_error_span]
 
 end Lc3V.C26
